@@ -196,6 +196,12 @@ def has_empty_part(g):
     return L.is_empty(g) or any(L.is_empty(a) for a in L.atoms(g))
 
 
+def has_empty_multi(g):
+    t, d = g
+    if t in ('MPT', 'MLS', 'MPG'): return len(d) == 0
+    return t == 'GC' and any(has_empty_multi(h) for h in d)
+
+
 def known_key(c, clause='', text=''):
     """input classes of the recorded findings (known_findings.json, property C03): specific to call, path and failing clause"""
     keys = []
@@ -208,6 +214,8 @@ def known_key(c, clause='', text=''):
             (clause == 'exception' and 'Unable to determine overlay result geometry dimension' in text)
             or (clause == 'iv-shape' and c.R is not None and L.is_empty(c.R))):
         keys.append('structured-collection-empty-dimension')
+    if clause == 'iv-shape' and c.R is not None and L.is_empty(c.R) and (has_empty_multi(c.A) or has_empty_multi(c.B)):
+        keys.append('structured-collection-empty-multi-dimension')
     if c.call == 'DIF' and 'iii-pts' in clause and any(a[0] == 'PT' and a[1] is not None for a in L.atoms(c.A)) \
             and any(a[0] == 'LS' and a[1] for a in L.atoms(c.B)):
         keys.append('difference-structured-collection-point-on-line')
